@@ -161,7 +161,74 @@ def run(ctx, res):
         res.ok("FLOAT-TEXT", "lex_between tries FLOAT_RE before INTEGER_RE")
     else:
         res.bad("FLOAT-TEXT", "parser::lex::lex_between # order", "FLOAT_RE is not tried before INTEGER_RE (1.5 would lex as 1 . 5)", LEX)
-    res.extra.update({"escape_table": esc_rows, "unescape_table": une_rows, "E": E, "regexes": rxs, "functions_analysed": 4})
+    # ---- NUMBER-PARSE (MIR): the reader obtains an Int/Float literal's value from std's own parser for that type,
+    # applied to the token text with `_` removed, and the printer formats the number with std's Display: the two are
+    # inverse by std's contract. A hand-written digit loop on either side is outside this argument and fails closed.
+    P = ctx.P
+    for fn, ty, variant in (("parser::parse_integer", "i64", "IntLiteral"), ("parser::parse_float", "f64", "FloatLiteral")):
+        f = P.require_fn(fn)
+        parses = [(bi, t) for bi, t in f.calls() if (M.callee_name(t) or "").endswith("str>::parse")
+                  and (t["callee"].get("args") or "").strip("[]") == ty]
+        key = "%s # value-from-std-parse" % fn
+        if len(parses) != 1:
+            res.bad("NUMBER-PARSE", key, "%s does not obtain the literal's value from `str::parse::<%s>` (found %d such calls): "
+                    "the printed form of every %s is only known to read back through std's own parser" % (fn, ty, len(parses), ty), f.loc())
+            continue
+        pb, pt = parses[0]
+        dest = pt["dest"]["l"]
+        # the text parsed is token.text with '_' replaced
+        src = f.root_of(pt["args"][0], through_named=True)
+        from_replace = False
+        for _ in range(4):
+            if src[0] == "call":
+                n = M.callee_name(src[2]) or ""
+                if n.endswith("str>::replace"):
+                    from_replace = True
+                    break
+                if src[2]["args"]:
+                    src = f.root_of(src[2]["args"][0], through_named=True)
+                    continue
+            break
+        flows = False
+        for b in f.blocks:
+            for st in b["stmts"]:
+                if st["s"] == "assign" and st["rv"]["k"] == "agg" and st["rv"].get("variant") == variant:
+                    r = f.root_of(st["rv"]["ops"][0], through_named=True)
+                    for _ in range(4):
+                        if r[0] == "call" and (M.callee_name(r[2]) or "").endswith(("::into", "::unwrap", "::expect", "::from")) and r[2]["args"]:
+                            r = f.root_of(r[2]["args"][0], through_named=True)
+                        else:
+                            break
+                    if r[0] == "place" and r[1]["l"] == dest and any(isinstance(e, dict) and e.get("downcast") == "Ok" for e in r[1]["p"]):
+                        flows = True
+                    if r[0] == "call" and r[2] is pt:
+                        flows = True
+        if flows and from_replace:
+            res.ok("NUMBER-PARSE", "%s: %s payload is the Ok value of str::parse::<%s>(text.replace('_', \"\"))" % (fn, variant, ty))
+        else:
+            res.bad("NUMBER-PARSE", key, "%s: the %s payload is not the Ok value of str::parse::<%s> on the `_`-stripped token text "
+                    "(flows=%s, stripped=%s)" % (fn, variant, ty, flows, from_replace), f.loc(pt.get("fn_span")))
+    dsp = P.require_fn("values::Value::display")
+    disp_tys = set()
+    for bi, t in dsp.calls():
+        n = M.callee_name(t) or ""
+        if n.endswith("Argument::<'_>::new_display"):
+            a = t["callee"].get("args") or ""
+            for ty in ("i64", "f64"):
+                if a.rstrip("]").endswith(" " + ty) or a.rstrip("]").endswith("&'{erased} " + ty):
+                    disp_tys.add(ty)
+        if n.endswith(("new_debug", "new_lower_exp", "new_upper_exp")):
+            a = t["callee"].get("args") or ""
+            if a.rstrip("]").endswith("i64") or a.rstrip("]").endswith("f64"):
+                res.bad("NUMBER-PARSE", "values::Value::display # non-Display number format",
+                        "Value::display formats a number with %s: Debug/exponent output is not Garden literal syntax" % n.split("::")[-1], dsp.loc(t.get("fn_span")))
+    for ty in ("i64", "f64"):
+        if ty in disp_tys:
+            res.ok("NUMBER-PARSE", "Value::display formats %s with std Display" % ty)
+        else:
+            res.bad("NUMBER-PARSE", "values::Value::display # %s not printed with Display" % ty,
+                    "Value::display does not format %s values with std's `{}` Display" % ty, dsp.loc())
+    res.extra.update({"escape_table": esc_rows, "unescape_table": une_rows, "E": E, "regexes": rxs, "functions_analysed": 7})
     res.explanation = (
         "Lexical clauses only. The escape and unescape tables are read from the two match statements and compared row by row. "
         "STRING-TOKEN builds the exact regular language of printed string literals from that table and decides, on the product "
